@@ -187,6 +187,14 @@ impl RefGrammar {
         p.expect_eof("Type")
     }
 
+    /// The first lexical error of `s` (reason, byte offset), whatever the grammar would say first.
+    pub fn first_lexical_error(s: &str) -> Option<(&'static str, usize)> {
+        lex(s).toks.iter().find_map(|t| match t.k {
+            K::Bad(r) => Some((r, t.start)),
+            _ => None,
+        })
+    }
+
     /// Exactly one selection set, outer braces optional, and nothing else but ignored tokens.
     pub fn accepts_field_set(s: &str) -> bool {
         Self::check_field_set(s).is_ok()
